@@ -491,6 +491,30 @@ def g_segments3d(ctx, rng, i):
         sc = _try(g.SegmentCollection, np.stack([A, B], axis=-2))
         if sc is not None:
             _try(sc.intersect, g.Plane(h))
+    if kind in (3, 4):
+        # collections of pairs in which skew pairs and meeting pairs are mixed; the supporting lines of a meeting pair cross inside /
+        # at the end of / beyond the end of either segment
+        o_ = gen.coords(rng, (3,), 3, "int")
+        u = gen.nonzero_vec(rng, 3, 3)
+        for _ in range(20):
+            v, w = gen.nonzero_vec(rng, 3, 3), gen.nonzero_vec(rng, 3, 3)
+            if abs(np.linalg.det(np.stack([u, v, w]))) > 0.5:
+                break
+        else:
+            return
+        hh = lambda c: np.append(c, 1)  # noqa: E731
+        A_, B_ = [], []
+        kinds = rng.permutation(5) if kind == 3 else rng.integers(0, 5, size=int(rng.integers(2, 7)))
+        for kd in kinds:
+            A_.append([hh(o_ - 2 * u), hh(o_ + 2 * u)])
+            B_.append({0: [hh(o_ - v), hh(o_ + v)], 1: [hh(o_ + v), hh(o_ + 3 * v)], 2: [hh(o_ + w - v), hh(o_ + w + v)], 3: [hh(o_), hh(o_ + 2 * v)],
+                       4: [hh(o_ + 3 * u - v), hh(o_ + 3 * u + v)]}[int(kd)])
+        SA, SB = _try(g.SegmentCollection, np.array(A_)), _try(g.SegmentCollection, np.array(B_))
+        if SA is not None and SB is not None:
+            _try(SA.intersect, SB)
+            _try(SB.intersect, SA)
+            _try(SA[0].intersect, SB)
+            _try(SB.intersect, SA[0])
 
 
 def g_polygons2d(ctx, rng, i):
